@@ -63,6 +63,108 @@ def c08_canon(x):
     return x
 
 
+# ---------------------------------------------------------------- to_file / from_file
+# the library's documented table of file extensions -> format (hand-written here, independent of molecule.py)
+BUILTIN_EXT = {".npy": "numpy", ".json": "json", ".xyz": "xyz", ".psimol": "psi4", ".psi4": "psi4", ".msgpack": "msgpack-ext"}
+TEXT_DTYPES = ("xyz", "xyz+", "psi4")
+
+
+def _mol_outcome(fn, keep=None):
+    """canonical outcome of a call that returns a Molecule: hash + the unhashed fields a psi4 text carries, or the exception class"""
+    import contextlib
+    import io
+    try:
+        with contextlib.redirect_stdout(io.StringIO()):
+            m = fn()
+    except Exception as e:
+        return ["Err", type(e).__name__]
+    if keep is not None:
+        keep.append(m)
+    return ["Ok", m.get_hash(), bool(m.fix_com), bool(m.fix_orientation), [str(x) for x in m.atom_labels]]
+
+
+def run_files(spec, scratch):
+    """spec: {"mols": [kwargs of from_arrays], "steps": [{"who", "name", "wdtype", "reads": [dtype-or-None, ...]}]}.
+    Every step writes ONE molecule to its own file `name` with Molecule.to_file(path, dtype=wdtype) and reads that file back
+    with Molecule.from_file(path, dtype=r) for every r in reads.  Returns ([canonical outcome of each step as JSON], [failures
+    of the history-free oracles: (step index, description)])."""
+    import shutil
+    import tempfile
+    from qcelemental.models import Molecule
+    from qcelemental.molparse import from_schema, to_schema
+    from . import c07, c08
+    mols, recs = [], []
+    for a in spec["mols"]:
+        m = Molecule(**to_schema(c08.build_molrec(a), dtype=2))
+        mols.append(m)
+        recs.append(from_schema(m.dict(), nonphysical=True))
+    os.makedirs(scratch, exist_ok=True)
+    tmp = tempfile.mkdtemp(prefix="files-", dir=scratch)
+    out, bad = [], []
+    try:
+        for k, st in enumerate(spec["steps"]):
+            mol, rec = mols[st["who"]], recs[st["who"]]
+            path = os.path.join(tmp, st["name"])
+            ext = os.path.splitext(st["name"])[1]
+            wd = st["wdtype"]
+            eff_w = wd if wd is not None else BUILTIN_EXT.get(ext)
+            try:
+                mol.to_file(path, dtype=wd)
+                w = ["Ok"]
+            except Exception as e:
+                w = ["Err", type(e).__name__]
+            if (w[0] == "Ok") != (eff_w is not None):
+                bad.append((k, f"2to_file({st['name']!r}, dtype={wd!r}) " + ("raised " + w[1] if w[0] == "Err" else
+                               "wrote a file although neither dtype nor a known extension names a format")))
+            text, reads = None, []
+            if w[0] == "Ok" and os.path.exists(path):
+                with open(path) as fh:
+                    text = fh.read()
+                if eff_w in TEXT_DTYPES and text != mol.to_string(eff_w):
+                    bad.append((k, f"1file written by to_file({st['name']!r}, dtype={wd!r}) is not to_string({eff_w!r})"))
+                for r in st["reads"]:
+                    back = []
+                    got = _mol_outcome(lambda: Molecule.from_file(path, dtype=r), back)
+                    reads.append([r, got])
+                    eff_r = r if r is not None else BUILTIN_EXT.get(ext)
+                    call = f"to_file({st['name']!r}, dtype={wd!r}); from_file({st['name']!r}" + (f", dtype={r!r})" if r else ")")
+                    if eff_r in TEXT_DTYPES or eff_r is None:
+                        # reading a text file = reading its characters (format named by dtype, else by a KNOWN extension, else detected)
+                        want = _mol_outcome(lambda: Molecule.from_data(text, dtype=eff_r))
+                        if got != want:
+                            bad.append((k, ("0" if got[0] == "Err" and want[0] == "Ok" else "1") + f"{call} gives {got[:2]} but the characters of that file read with "
+                                           f"from_data(text, dtype={eff_r!r}) give {want[:2]}"))
+                            continue
+                    readable = eff_w in TEXT_DTYPES and c07.fits(eff_w, rec) and (eff_r == eff_w or (eff_r is None and eff_w != "xyz+"))
+                    if readable or (eff_w == "json" and eff_r == "json"):
+                        diff = c07.hash_difference(mol, back[0]) if got[0] == "Ok" else "raised " + got[1]
+                        if diff:
+                            bad.append((k, f"0{call}: Molecule -> file -> Molecule " + (diff if got[0] == "Err" else f"changed the hash ({diff})")))
+            out.append(_json([w, text, reads]))
+    finally:
+        shutil.rmtree(tmp, ignore_errors=True)
+    return out, bad
+
+
+def check_files(spec, scratch):
+    """-> None or (step index, description, spec to replay): the history-free oracles in this process (descriptions carry a
+    severity digit in front: a readable file that raises comes first), then every step against the same steps in REVERSED order
+    in a fresh interpreter."""
+    here, bad = run_files(spec, scratch)
+    prior = lambda k: "; ".join(f"to_file({s['name']!r}, dtype={s['wdtype']!r})" for s in spec["steps"][:k]) or "nothing"
+    if bad:
+        k, what = min(bad, key=lambda b: (b[1][0], b[0]))
+        return k, f"step {k}, after [{prior(k)}]: {what[1:]}", dict(spec, steps=spec["steps"][:k + 1])
+    there = fresh({"kind": "files", "spec": dict(spec, steps=spec["steps"][::-1]), "scratch": scratch})[::-1]
+    for k, (a, b) in enumerate(zip(here, there)):
+        if a != b:
+            st = spec["steps"][k]
+            return k, (f"step {k} (to_file({st['name']!r}, dtype={st['wdtype']!r}) then from_file with dtype in {st['reads']}) answers "
+                       f"differently after [{prior(k)}] than in a fresh interpreter running the steps in reverse order: "
+                       f"{a[-300:]} / {b[-300:]}", spec)
+    return None
+
+
 # ---------------------------------------------------------------- the fresh interpreter
 def fresh(job):
     """run `job` in a new interpreter; returns the decoded answer or raises RuntimeError (machinery problem)."""
@@ -107,6 +209,8 @@ def main():
     job = json.loads(sys.stdin.read())
     if job["kind"] == "from_string":
         ans = run_from_string(job["calls"])
+    elif job["kind"] == "files":
+        ans = run_files(job["spec"], job["scratch"])[0]
     else:
         out, same = run_to_string(job["spec"])
         ans = {"out": out, "same": same}
